@@ -115,6 +115,9 @@ var SupervisorSchema = ssam.BasicSchema.Merge(
 		// errors
 
 		ssS.ErrWorker: {
+			// every error has to reach ErrWorkerState, also when the previous one
+			// is still active
+			Multi:   true,
 			Require: S{ssS.Exception},
 			Add:     S{ssS.NormalizingPool, ssS.Heartbeat},
 		},
